@@ -4,7 +4,7 @@
    the implementation by the harness after every schedule). *)
 From Coq Require Import List NArith Bool.
 From Dials Require Import Base.Outcome Core.CbMgr Core.Monitor Core.System
-  Core.CbMgrProofs Core.MonitorProofs Core.SystemProofs.
+  Core.CbMgrProofs Core.MonitorProofs Core.SystemProofs Core.LivenessProofs.
 Import ListNotations.
 Open Scope N_scope.
 
@@ -94,6 +94,22 @@ Theorem pending_call_returns_with_ctx : forall (cfg sv : Type) (cbcap : N) (s : 
   end \/ (exists m, t_pc t = POffer m).
 Proof. exact @cancelled_call_returns_l. Qed.
 
+(* no reachable state is a trap: from every reachable state there is a finite
+   schedule - the monitor performs what it has pending, the Config context is
+   cancelled, callbacks return - after which the monitor is gone, monDone is
+   closed and the callback goroutine is gone.  A possibility statement;
+   liveness under a fairness assumption on the scheduler is not formalised
+   (partial). *)
+Theorem shutdown_always_possible : forall (cfg sv : Type) (stack : list sv -> option cfg) (verify : cfg -> bool)
+    (p : params) (on_new on_err : bool) (cbcap : N) (inits : list sv) (watching : list bool)
+    (s0 : sys cfg sv) (ls : list (label sv)) (s : sys cfg sv),
+  snd (sys_init stack verify p inits watching) = Ok s0 ->
+  run stack verify p on_new on_err cbcap s0 ls = Some s ->
+  s_mon s <> MNone ->
+  exists ls' s', run stack verify p on_new on_err cbcap s ls' = Some s' /\
+                 s_mon s' = MExited /\ s_done s' = true /\ (s_cb s' = CExited \/ s_cb s' = CNone).
+Proof. exact @shutdown_always_possible_l. Qed.
+
 Print Assumptions no_panic.
 Print Assumptions unregister_never_panics.
 Print Assumptions monitor_independent_of_callbacks.
@@ -103,3 +119,4 @@ Print Assumptions shutdown_callbacks.
 Print Assumptions callbacks_drain.
 Print Assumptions late_calls_fail.
 Print Assumptions pending_call_returns_with_ctx.
+Print Assumptions shutdown_always_possible.
